@@ -180,10 +180,13 @@ end HSet
 abbrev HSetS := HSet Nat
 
 /-- Hash of a value as the Rust type hashes it. `kind`: 1/2/4/8 = unsigned
-    integer of that many bytes (`write_uN`, native-endian); 0 = the harness's
+    integer of that many bytes; 32 = a 32-byte array; (`write_uN`, native-endian); 0 = the harness's
     weak-hash type (`write_u8(v & 1)`). -/
 def hashOf (kind : Nat) (v : Nat) : Nat :=
   if kind = 0 then (Sip.hash13 [UInt8.ofNat (v % 2)]).toNat
+  else if kind = 32 then
+    -- `[u8; 32]` hashes as a slice: length prefix (`write_usize(32)`), then the bytes
+    (Sip.hash13 (leEnc 8 32 ++ leEnc 32 v)).toNat
   else (Sip.hash13 (leEnc kind v)).toNat
 
 def hsetStep (hk : Nat) (s : HSetS) (op : String) (args : List Int) : Option (HSetS × String) :=
